@@ -158,7 +158,7 @@ fn main() {
             ctx.replay_mode = true;
             println!("REPLAY property={} signature={}", prop, v["signature"]);
             println!("REPLAY recorded-detail={}", v["detail"]);
-            match props::replay(&mut ctx, &prop, &v["case"], &v["detail"]) {
+            match props::replay(&mut ctx, &prop, &v["case"], &v["detail"], v["signature"].as_str().unwrap_or("")) {
                 Ok(()) => {
                     let n = ctx.n_violations();
                     println!("REPLAY violations-now={}", n);
